@@ -23,3 +23,30 @@ def gscon_records(path):
             elif cur is not None and e == "Trsv" and cur["solves"]:
                 cur["solves"][-1].append(json.loads(ln)["a"])
     return recs
+
+
+def rfs_records(path, cplx=False):
+    """one record per ?gsrfs call of a drv_api output stream: the sp_?gemv / ?gstrs / ?lacon calls it made, in order
+    (validated against SluRefine!RfsOK)"""
+    recs, cur = [], None
+    with open(path) as f:
+        for ln in f:
+            if not ln.startswith('{"e":"'):
+                continue
+            e = ln[6:ln.find('"', 6)]
+            if e == "RfsBegin":
+                a = json.loads(ln)["a"]
+                cur = {"e": "Rfs", "op": a[0], "nrhs": a[1], "n": a[2], "cplx": 1 if cplx else 0, "ev": []}
+            elif e == "RfsEnd":
+                if cur is not None:
+                    cur["info"] = json.loads(ln)["a"][1]
+                    recs.append(cur)
+                cur = None
+            elif cur is not None and e == "Gemv":
+                cur["ev"].append([1, json.loads(ln)["a"][0], 0])
+            elif cur is not None and e == "Gstrs":
+                cur["ev"].append([2, json.loads(ln)["a"][0], 0])
+            elif cur is not None and e == "Lacon":
+                a = json.loads(ln)["a"]
+                cur["ev"].append([3, a[1], a[2]])
+    return recs
